@@ -2,10 +2,11 @@
 harness/internal/stream/zz_verif_c16sw_test.go).
 
 run(ctx) is called from checks/C16.py after its own stages. It
-  1. model checks StaleWriter.tla (third-party read-lock holder, replaced publisher's WriteUnit, replacement's
+  1. model checks StaleWriter.tla (third-party read-lock holder, a stall between guard and fan-out, replaced publisher's WriteUnit in parts, replacement's
      Initialize over an RW lock with writer preference) at lock granularity and at gate granularity: the statement
      "no unit of the replaced publisher is handed to a reader after the swap" must hold for layer 1 (the code: guard
-     under the lock) and must FAIL for the named deviation CheckOutsideLock = TRUE; both results go into the evidence;
+     under the lock, Initialize under the write lock) and must FAIL for each named deviation (CheckOutsideLock,
+     InitUnderReadLock); all three results go into the evidence;
   2. takes every complete gate schedule TLC prints (SCHED lines) and replays it on the real stream.Stream / SubStream
      (in-package: Stream.mutex.RLock held by the harness, goroutine parking read from runtime.Stack);
   3. lets TLC judge the recorded deliveries (TraceStaleWriter.tla). A violation is reported through ctx.violation.
@@ -48,30 +49,32 @@ def run(ctx):
         except vf.Infra:
             pass
 
-    mc, dev, _ = _par([
+    mc, dev, dev2, _ = _par([
         lambda: vf.tlc(ctx, "StaleWriter", "StaleWriter.cfg", workers=2, timeout=300),
         lambda: vf.tlc(ctx, "StaleWriter", "StaleWriter_dev.cfg", workers=2, timeout=300, allow_violation=True),
+        lambda: vf.tlc(ctx, "StaleWriter", "StaleWriter_dev2.cfg", workers=2, timeout=300, allow_violation=True),
         warm,
     ])
     ctx.add("states", mc.distinct)
     ctx.add("transitions", mc.generated)
     ctx.cov.setdefault("mc_runs", []).append(
         {"module": "StaleWriter", "cfg": "StaleWriter.cfg", "distinct": mc.distinct, "generated": mc.generated,
-         "depth": mc.depth, "wall_s": round(mc.wall, 2), "result": "statement holds (CheckOutsideLock = FALSE)"})
-    if dev.violated != "PropNoStale":
-        raise vf.Infra("StaleWriter.tla with CheckOutsideLock = TRUE does not violate PropNoStale (got %r): "
-                       "the model cannot see the defect it is built for" % (dev.violated,))
-    ctx.cov.setdefault("mc_runs", []).append(
-        {"module": "StaleWriter", "cfg": "StaleWriter_dev.cfg", "distinct": dev.distinct, "generated": dev.generated,
-         "depth": dev.depth, "wall_s": round(dev.wall, 2),
-         "result": "PropNoStale violated, as it must be (named deviation CheckOutsideLock = TRUE)"})
+         "depth": mc.depth, "wall_s": round(mc.wall, 2), "result": "statement holds (layer 1 = the code: both deviations FALSE)"})
+    for r, cfgname, devname in ((dev, "StaleWriter_dev.cfg", "CheckOutsideLock"), (dev2, "StaleWriter_dev2.cfg", "InitUnderReadLock")):
+        if r.violated != "PropNoStale":
+            raise vf.Infra("StaleWriter.tla with %s = TRUE does not violate PropNoStale (got %r): "
+                           "the model cannot see the defect it is built for" % (devname, r.violated))
+        ctx.cov.setdefault("mc_runs", []).append(
+            {"module": "StaleWriter", "cfg": cfgname, "distinct": r.distinct, "generated": r.generated,
+             "depth": r.depth, "wall_s": round(r.wall, 2),
+             "result": "PropNoStale violated, as it must be (named deviation %s = TRUE)" % devname})
 
     scheds = []
     for x in mc.tagged("SCHED"):
-        c = {"id": len(scheds), "holder": x["holder"], "gates": x["gates"]}
-        if c["gates"] not in [s["gates"] for s in scheds]:
+        c = {"id": len(scheds), "mode": x["mode"], "gates": x["gates"]}
+        if (c["mode"], c["gates"]) not in [(s["mode"], s["gates"]) for s in scheds]:
             scheds.append(c)
-    if len(scheds) < 10:
+    if len(scheds) < 20:
         raise vf.Infra("StaleWriter.tla produced only %d schedules" % len(scheds))
     cf = vf.write_ndjson(ctx.path("sw_cases.ndjson"), scheds)
     of = ctx.path("sw_obs.ndjson")
@@ -85,7 +88,8 @@ def run(ctx):
         rec = recs[bad["l"] - 1]
         ctx.violation({"stage": "stale-writer", "monitor": bad["monitor"], "gates": rec["gates"]},
                       "a unit written by the replaced publisher reached the reader after the replacement: schedule %s "
-                      "(HAcq/HRel: a third party holds Stream.mutex for reading; RCall: SubStream.Initialize of the new "
+                      "(HAcq/HRel: a third party holds Stream.mutex for reading; SHold/SRel: writes are stalled between the guard "
+                      "and the fan-out; RCall: SubStream.Initialize of the new "
                       "publisher; WCall: WriteUnit of the old one); observed after each gate (old publisher's write, "
                       "replacement, TryRLock) %s; the reader received %s, %s being the old publisher's unit"
                       % (rec["gates"], [(o["w"], o["r"], o["try"]) for o in rec["obs"]],
@@ -97,7 +101,10 @@ def run(ctx):
     ctx.add("traces_validated_against_impl", len(recs))
     ctx.set("sw_schedules_replayed", len(recs))
     ctx.set("sw_schedules_with_write_ordered_after_swap",
-            sum(1 for r in recs if any(o["r"] in ("pending", "done") and o["w"] in ("notstarted", "blocked") for o in r["obs"])))
+            sum(1 for r in recs if any((o["r"] == "done" and o["w"] in ("notstarted", "blocked", "stalled"))
+                                       or (o["r"] == "pending" and o["w"] in ("notstarted", "blocked")) for o in r["obs"])))
+    ctx.set("sw_schedules_with_replacement_waiting_for_a_write_in_progress",
+            sum(1 for r in recs if any(o["r"] == "pending" and o["w"] == "stalled" for o in r["obs"])))
     ctx.set("sw_drift_events", drift)
     ctx.set("sw_wall_s", round(time.time() - t0, 1))
     ctx.sample({"stale_writer_schedule": recs[len(recs) // 2]["gates"], "obs": recs[len(recs) // 2]["obs"],
